@@ -5,6 +5,7 @@ pub mod tiny;
 pub mod policy;
 pub mod cache;
 pub mod live;
+pub mod live2;
 pub mod flavour;
 pub mod keys;
 pub mod hist;
@@ -29,6 +30,11 @@ impl Out {
     pub fn line(&mut self, s: &str) {
         self.lines += 1;
         writeln!(self.w, "{}", s).unwrap();
+        if watch::armed() {
+            // the watchdog may have to finish the file on our behalf: keep it complete
+            self.w.flush().unwrap();
+            watch::progress();
+        }
     }
     pub fn flush(&mut self) {
         self.w.flush().unwrap();
@@ -81,4 +87,68 @@ pub fn arg(args: &[String], name: &str) -> Option<String> {
 
 pub fn arg_u64(args: &[String], name: &str, default: u64) -> u64 {
     arg(args, name).and_then(|s| s.parse().ok()).unwrap_or(default)
+}
+
+
+/// Watchdog of the stepped generators: when a step of the implementation does not complete (a worker
+/// stuck in a blocking receive, a deadlock), the trace so far is completed with a `HANG` line that names
+/// the step and the process exits; the driver turns that line into a violation with the trace as the
+/// failing input.
+pub mod watch {
+    use std::io::Write;
+    use std::sync::Mutex;
+    use std::time::{Duration, Instant};
+
+    struct State {
+        path: Option<String>,
+        last: Instant,
+        note: String,
+        limit: Duration,
+    }
+
+    static STATE: Mutex<Option<State>> = Mutex::new(None);
+
+    pub fn armed() -> bool {
+        STATE.lock().unwrap().is_some()
+    }
+
+    pub fn arm(path: Option<String>, limit: Duration) {
+        *STATE.lock().unwrap() = Some(State { path, last: Instant::now(), note: "start".into(), limit });
+        std::thread::spawn(|| loop {
+            std::thread::sleep(Duration::from_millis(250));
+            let hang = {
+                let g = STATE.lock().unwrap();
+                match g.as_ref() {
+                    Some(st) if st.last.elapsed() > st.limit => Some((st.path.clone(), st.note.clone(), st.limit)),
+                    _ => None,
+                }
+            };
+            if let Some((path, note, limit)) = hang {
+                let line = format!("c.hang {} | HANG after={}s", note.replace(' ', "_"), limit.as_secs());
+                match path {
+                    Some(p) => {
+                        if let Ok(mut f) = std::fs::OpenOptions::new().append(true).open(&p) {
+                            let _ = writeln!(f, "{}", line);
+                        }
+                    }
+                    None => println!("{}", line),
+                }
+                std::process::exit(0);
+            }
+        });
+    }
+
+    /// the step about to be taken
+    pub fn note(s: &str) {
+        if let Some(st) = STATE.lock().unwrap().as_mut() {
+            st.note = s.to_string();
+            st.last = Instant::now();
+        }
+    }
+
+    pub fn progress() {
+        if let Some(st) = STATE.lock().unwrap().as_mut() {
+            st.last = Instant::now();
+        }
+    }
 }
